@@ -73,10 +73,20 @@ def main():
     except SystemExit:
         raise
     except BaseException:
-        traceback.print_exc()
-        import shutil
-        shutil.rmtree(ctx.scratch, ignore_errors=True)
-        sys.exit(2)
+        # the machinery itself failed (a harness that no longer builds against a changed API, a plugin bug):
+        # the property is not shown to hold on this tree, and no failing input is known
+        tb = traceback.format_exc()
+        sys.stderr.write(tb)
+        if a.replay:
+            sys.exit(2)
+        try:
+            ctx.report({"unchecked": "the check's own machinery failed before it could decide the property",
+                        "detail": tb[-4000:]}, {"kind": "machinery_crash"}, failing_input=False)
+            rc = ctx.finish(mod.META.get("level", "proof"))
+        except BaseException:
+            traceback.print_exc()
+            rc = 2
+        sys.exit(rc or 1)
 
 
 if __name__ == "__main__":
